@@ -555,7 +555,14 @@ func (q *Queue) deliver(meta *QueueMetadata, header textproto.Header, body buffe
 
 	if err := delivery.Commit(bodyCtx); err != nil {
 		dl.Debugf("delivery.Commit failed: %v", err)
-		expandToPartialErr(err)
+		// Commit failure concerns only recipients that were going to be
+		// committed. Keep the per-recipient status reported by
+		// BodyNonAtomic for the others, it may be permanent.
+		for _, rcpt := range acceptedRcpts {
+			if perr.Errs[rcpt] == nil {
+				perr.Errs[rcpt] = err
+			}
+		}
 	}
 	dl.Debugf("delivery.Commit OK")
 
